@@ -964,6 +964,11 @@ func (val Value) HasIndex(key Value) Value {
 		return UnknownVal(Bool).RefineNotNull()
 	}
 
+	if key.IsNull() {
+		// A null value is never a valid index key.
+		return False
+	}
+
 	switch {
 	case val.Type().IsListType():
 		if key.Type() == DynamicPseudoType {
